@@ -69,12 +69,23 @@ def run(rep, tier, rng):
                     {"op": "bind", "alg": al, "a": a, "b": bb, "kind": kind, "obs": c.obs_json(o)},
                     ("bind", al, tuple(a), tuple(bb)), nontrivial=any(a) and any(bb),
                     sample={"op": "bind", "alg": al, "a": a, "b": bb, "observed": c.obs_json(o)} if d in (4, 5) and kind == "random" else None)
+                if len(a) <= 16 and len(a) == len(bb) and kind in ("basis", "random"):
+                    oi = c.observe(lambda: A.bind(np.array(a, dtype=int), np.array(bb, dtype=int)))
+                    add(f"check_bind {al} {c.zlist(a)} {c.zlist(bb)} {algs.tol_for(a, bb, d=d)} {obs_t(oi, algs.enc_vec)}",
+                        {"op": "bind-int-dtype", "alg": al, "a": a, "b": bb, "kind": kind, "obs": c.obs_json(oi)},
+                        ("bind-int", al, tuple(a), tuple(bb)), nontrivial=any(a) and any(bb))
 
             def bmat_case(v, swap, kind):
                 o = c.observe(lambda: A.get_binding_matrix(algs.fl(v), swap_inputs=swap))
                 add(f"check_bmat {al} {c.zlist(v)} {c.b(swap)} {algs.tol_for(v, d=1)} {obs_t(o, algs.enc_mat)}",
                     {"op": "bmat", "alg": al, "v": v, "swap": swap, "kind": kind, "obs": c.obs_json(o)},
                     ("bmat", al, tuple(v), swap), nontrivial=any(v))
+                if len(v) <= 16 and kind in ("basis", "random", "shape-alt", "shape-big", "shape-ones"):
+                    # integer-typed arrays are vectors too
+                    oi = c.observe(lambda: A.get_binding_matrix(np.array(v, dtype=int), swap_inputs=swap))
+                    add(f"check_bmat {al} {c.zlist(v)} {c.b(swap)} {algs.tol_for(v, d=1)} {obs_t(oi, algs.enc_mat)}",
+                        {"op": "bmat-int-dtype", "alg": al, "v": v, "swap": swap, "kind": kind, "obs": c.obs_json(oi)},
+                        ("bmat-int", al, tuple(v), swap), nontrivial=any(v))
 
             def inv_case(v, sd):
                 o = c.observe(lambda: A.invert(algs.fl(v), sidedness=algs.side_obj(sd)))
